@@ -332,6 +332,12 @@ pub fn plan(property: &str, quick: bool) -> Plan {
                     }),
                 ));
             }
+            // simultaneous claims at every interleaving the runtime can produce (the password
+            // check and the lock hand-over are scheduling points): the registration bursts of C18
+            for b in ["reg-race-2", "reg-race-2-user-first", "reg-race-2-password", "nick-vs-registration", "nick-race"] {
+                let name = b.to_string();
+                parts.push(Part::Custom(format!("int:{}", b), Box::new(move || super::c18::burst_part(&name))));
+            }
             Plan {
                 property: "C02".into(),
                 rule: "E-SEQ BFS: 2 (thorough: 3) contending connections + a registered witness; nick menu {x,y,z}; alphabet NICK/USER/PASS good|bad/CAP/QUIT/EOF for unregistered connections, PRIVMSG/JOIN/NICK/MODE/AWAY/QUIT/EOF for registered ones, and attempts to act by unregistered/refused connections. Oracles: Spec (a refused or incomplete registration changes nothing and delivers nothing), bijection between registered nicknames and owning connections in every state, attribution and reachability of every owner after every step".into(),
